@@ -35,7 +35,7 @@ TESTS = {
     "standin_cproof_patterns": ("zkchannels-crypto", ["C10", "C11", "C09"], ["cproof.CommitmentProof::verify_knowledge_of_opening", "cproof.CommitmentProofBuilder::*", "pedersen.Commitment::new"]),
     "standin_sproof_verify": ("zkchannels-crypto", ["C11", "C10", "C02", "C13", "C12"], ["sproof.SignatureProof::verify_knowledge_of_signature", "sproof.SignatureProof::consume"]),
     "standin_range_validate": ("zkchannels-crypto", ["C13", "C19"], ["range.RangeConstraintParameters::validate"]),
-    "standin_range_constraint": ("zkchannels-crypto", ["C13", "C10", "C02"], ["range.RangeConstraintBuilder::*", "range.RangeConstraint::verify_range_constraint"]),
+    "standin_range_constraint": ("zkchannels-crypto", ["C13", "C10", "C02", "C11"], ["range.RangeConstraintBuilder::*", "range.RangeConstraint::verify_range_constraint"]),
     "standin_challenge_finish": ("zkchannels-crypto", ["C12", "C06"], ["challenge.ChallengeBuilder::finish", "challenge.ChallengeBuilder::with_bytes", "challenge.Scalar::consume", "challenge.G1Projective::consume"]),
     "standin_range_params_challenge": ("zkchannels-crypto", ["C06", "C02", "C12"], ["range.RangeConstraintParameters::consume"]),
     "standin_channel_id_scalar": ("zkabacus-crypto", ["C06", "C18", "C01"], ["states.ChannelId::to_scalar"]),
